@@ -341,6 +341,31 @@ def run(tier, seed, replay):
                     v(f"step-increments:{which}", f"start/step reproduces the states of run() for the same seed but reports other increments (per operator / quadrature) than run(): {d_inc:.2e} ({cfg})", cfg)
                 if d_rep > 1e-9:
                     v(f"step-increments-replay:{which}", f"replaying the increments returned by step(wiener_increment=True) does not reproduce the stepped trajectory ({cfg}): {d_rep:.2e}", cfg)
+    # ------------------------------------------------------------------ the increments a scheme of order 1.5 reports are the ones that drove it (it also draws auxiliary
+    # normal variables for the iterated integrals, which are not part of the record): replayed through a scheme of order 1 they give the same path up to the step error
+    fine = np.linspace(0, 0.5, 101)
+    for which in ("sme", "sse"):
+        for method in [m for m in ("taylor1.5", "explicit1.5", "taylor1.5_imp") if m in (sme_methods if which == "sme" else sse_methods)]:
+            for het in (False, True):
+                cfg = {"eq": which, "method": method, "heterodyne": het, "check": "record of an order-1.5 scheme replayed by platen"}
+                try:
+                    with warnings.catch_warnings():
+                        warnings.simplefilter("ignore")
+                        with core.time_limit(300):
+                            s15, st, sc = make(which, method, het, 1, False, 0.005)
+                            r15 = s15.run(st, fine, ntraj=1, seeds=[91])
+                            s10, _, _ = make(which, "platen", het, 1, False, 0.005)
+                            rrp = s10.run_from_experiment(st, fine, np.asarray(r15.dW[0]))
+                except core.CaseTimeout:
+                    raise
+                except Exception as e:
+                    v(f"raises:{which}:{method}", f"{cfg}: {type(e).__name__}: {e}"[:240], cfg)
+                    continue
+                rep.evaluations += 1
+                rep.count("order15-record-replayed")
+                dd = max(float((a - b).norm()) for a, b in zip(r15.runs_states[0], rrp.states))
+                if dd > 0.03:
+                    v(f"order15-record:{which}", f"{method} ({which}, heterodyne={het}): the increments it reports, replayed through platen with the same step, give a path {dd:.2e} away (the step error is about 1e-3)", cfg)
     # ------------------------------------------------------------------ schemes of order 1.5 draw the same noise for the same seed: they must approach each other at their order
     pairs15 = [m for m in ("explicit1.5", "taylor1.5", "taylor1.5_imp") if m in sme_methods]
     if len(pairs15) >= 2:
@@ -415,13 +440,18 @@ def run(tier, seed, replay):
         finest = rng.standard_normal((1, nf)) * np.sqrt(T / nf)
         finals = {}
         for which, methods in (("sme", sme_methods), ("sse", sse_methods)):
-            for method in methods:
+            # the predictor-corrector scheme also with other values of its documented weights
+            variants = list(methods) + (["pred_corr|eta=0.2", "pred_corr|eta=1.0", "pred_corr|eta=0.8,alpha=0.5", "pred_corr|eta=0.0,alpha=1.0"] if "pred_corr" in methods else [])
+            for method in variants:
                 errs = []
+                extra_o = {}
+                if "|" in method:
+                    extra_o = {kv.split("=")[0]: float(kv.split("=")[1]) for kv in method.split("|")[1].split(",")}
                 for n in levels:
                     noise = finest.reshape(1, n, nf // n).sum(axis=2)
                     tln = np.linspace(0, T, n + 1)
                     H = qutip.QobjEvo([0.5 * sz, [0.3 * sx, f_t]], args={"w": 3.0})
-                    o = {"method": method, "dt": T / n, "store_states": False, "store_final_state": True, "progress_bar": ""}
+                    o = dict({"method": method.split("|")[0], "dt": T / n, "store_states": False, "store_final_state": True, "progress_bar": ""}, **extra_o)
                     try:
                         with warnings.catch_warnings():
                             warnings.simplefilter("ignore")
